@@ -20,6 +20,7 @@ import (
 	"github.com/paulmach/orb/encoding/wkt"
 	"github.com/paulmach/orb/geojson"
 	"go.mongodb.org/mongo-driver/bson"
+	"go.mongodb.org/mongo-driver/bson/primitive"
 )
 
 // C05: every decoder on hostile input. See spec/Decoders_Trace.tla.
@@ -556,6 +557,72 @@ func init() {
 				if err == nil {
 					c05Raw(c, "bson(mutant)", mutate(gb), c05BSONDecs)
 				}
+			}
+		}
+		// well-formed BSON documents whose members have the wrong kind (a number, null, a document, binary data, an array, a
+		// boolean or a string where something else belongs), at the top level and one level down, for every BSON entry point
+		{
+			wrong := func() interface{} {
+				switch c.rng.Intn(10) {
+				case 0:
+					return int32(5)
+				case 1:
+					return 3.5
+				case 2:
+					return nil
+				case 3:
+					return bson.M{"a": int32(1)}
+				case 4:
+					return primitive.Binary{Subtype: 0, Data: []byte{1, 2, 3}}
+				case 5:
+					return bson.A{int32(1), "a"}
+				case 6:
+					return true
+				case 7:
+					return "Point"
+				case 8:
+					return int64(1) << 40
+				}
+				return bson.A{}
+			}
+			pick := func(good interface{}) interface{} {
+				if c.rng.Intn(3) == 0 {
+					return wrong()
+				}
+				return good
+			}
+			for i := 0; i < c.pick(1500, 30000); i++ {
+				geom := bson.M{"type": pick("Point"), "coordinates": pick(bson.A{1.0, 2.0})}
+				if c.rng.Intn(4) == 0 {
+					geom = bson.M{"type": pick("GeometryCollection"), "geometries": pick(bson.A{bson.M{"type": pick("Point"), "coordinates": pick(bson.A{1.0, 2.0})}})}
+				}
+				feat := bson.M{"type": pick("Feature"), "geometry": pick(geom), "properties": pick(bson.M{"k": "v"})}
+				if c.rng.Intn(2) == 0 {
+					feat["id"] = wrong()
+				}
+				if c.rng.Intn(3) == 0 {
+					feat["bbox"] = pick(bson.A{0.0, 0.0, 1.0, 1.0})
+				}
+				var doc bson.M
+				switch c.rng.Intn(3) {
+				case 0:
+					doc = geom
+				case 1:
+					doc = feat
+				default:
+					doc = bson.M{"type": pick("FeatureCollection"), "features": pick(bson.A{pick(feat)})}
+					if c.rng.Intn(3) == 0 {
+						doc["bbox"] = wrong()
+					}
+					if c.rng.Intn(3) == 0 {
+						doc["extra"] = wrong()
+					}
+				}
+				b, err := bson.Marshal(doc)
+				if err != nil {
+					continue
+				}
+				c05Raw(c, "bson(members)", b, c05BSONDecs)
 			}
 		}
 		// stress shapes: deep nesting with inflated counts, very many tiny parts, and short hex strings for every scanner
